@@ -386,8 +386,9 @@ theorem jumpdest_sat (h : Rel 0 false false 0 s0 s) :
     Exec.Sat (gasCharge GasCalc.JUMPDEST s) (Halt s0) (fun _ s' => Done1 s0 s') :=
   sat_mono (gasCharge_sat h _) (fun _ _ h1 => done1_of h1 (by decide))
 
-theorem returnInner_sat (h : Rel 0 false false 0 s0 s) (r : IResult) :
-    Exec.Sat (returnInner r s) (Halt s0) (fun _ s' => Done1 s0 s') := by
+/-- RETURN / REVERT never continue (any post-condition `Q`) -/
+theorem returnInner_sat {Q : Unit → IState → Prop} (h : Rel 0 false false 0 s0 s) (r : IResult) :
+    Exec.Sat (returnInner r s) (Halt s0) Q := by
   unfold returnInner
   refine sat_bind (pop2_sat h) ?_
   rintro ⟨offset, len⟩ s1 h1
@@ -403,8 +404,8 @@ theorem returnInner_sat (h : Rel 0 false false 0 s0 s) (r : IResult) :
     exact haltOut_sat h4 _ _
   · exact haltOut_sat h1 _ _
 
-theorem revertI_sat (h : Rel 0 false false 0 s0 s) :
-    Exec.Sat (revertI s) (Halt s0) (fun _ s' => Done1 s0 s') := by
+theorem revertI_sat {Q : Unit → IState → Prop} (h : Rel 0 false false 0 s0 s) :
+    Exec.Sat (revertI s) (Halt s0) Q := by
   unfold revertI
   refine sat_bind (check_sat h _) ?_
   intro _ s0' e0; subst e0
